@@ -422,7 +422,21 @@ def c20_f(ctx: Ctx):
     if nw and ws:
         a = ctx.fold(nw[0].value.args[-1], f) if isinstance(nw[0].value, ast.Call) and nw[0].value.args else None
         b = ctx.fold(ws[0].value.args[-1], pi) if isinstance(ws[0].value, ast.Call) and ws[0].value.args else None
-        if a == b and isinstance(a, str):
+        # the directory the new workspace is created in must be the project root itself (a function of the root
+        # parameter only), never something derived from the configured (possibly nested) old workspace name
+        dirpart = None
+        if isinstance(nw[0].value, ast.Call) and common.ext_name(ctx, f, nw[0].value) == "os.path.join" and len(nw[0].value.args) >= 2:
+            dirpart = nw[0].value.args[:-1]
+        root_param = f.params[0] if f.params else None
+        dir_txt = ", ".join(canon(common.inline_at(ctx, f, d, nw[0])) for d in dirpart) if dirpart else None
+        cfg_names = {t.id for n in body_nodes(f) if isinstance(n, ast.Assign) and isinstance(n.value, ast.Call) and canon(n.value).startswith("cfg.get(") for t in n.targets if isinstance(t, ast.Name)}
+        cfg_dep = dir_txt is not None and (any(nm in dir_txt for nm in cfg_names) or "cfg.get(" in dir_txt or "cfg[" in dir_txt or "workspace_dir" in dir_txt)
+        if a == b and isinstance(a, str) and cfg_dep:
+            out.append(ctx.viol(R, f, nw[0], f"the new workspace is created in {dir_txt[:90]}, which depends on the configured workspace_dir: for a nested custom workspace (scratch/runs) the jobs are moved to "
+                                "<root>/scratch/workspace instead of <root>/workspace and the migrated project opens empty", construct=f.qual + "|new-workspace-dir"))
+        elif a == b and isinstance(a, str) and dirpart is not None and dir_txt != root_param:
+            out.append(ctx.inc(R, f, nw[0], f"directory of the new workspace ({dir_txt[:60]}) is not the root parameter", construct=f.qual + "|new-workspace-dir"))
+        elif a == b and isinstance(a, str):
             out.append(ctx.ok(R, f, nw[0], f"a custom workspace directory is moved to '{a}', the fixed workspace name of schema 2"))
         else:
             out.append(ctx.viol(R, f, nw[0], f"the migration moves the workspace to {a!r} but Project uses {b!r}: migrated projects appear empty"))
@@ -450,4 +464,15 @@ def c20_g(ctx: Ctx):
     return res
 
 
-RULES = [c20_a, c20_b, c20_c, c20_d, c20_e, c20_f, c20_g]
+@rule("C20-h")
+def c20_h(ctx: Ctx):
+    """A legacy project anywhere above the query path is refused: the walk that probes for older schemas starts from an absolute path and runs after the search for a current
+    configuration (from C19-c)."""
+    from .c19 import c19_c
+    res = [r for r in c19_c(ctx) if "|absolute-start" in r.construct or "|probe-after-search" in r.construct]
+    for r in res:
+        r.rule = "C20-h"
+    return res
+
+
+RULES = [c20_a, c20_b, c20_c, c20_d, c20_e, c20_f, c20_g, c20_h]
